@@ -339,4 +339,47 @@ theorem timer_armed (pn : PN) (val client : Bool) (nts : PN) (ops : List (Op × 
 example : let s := ((State.new 0 false true 300).run [(.send .initial 1000 (-1) 100 false false [⟨1, true⟩] [], wEnv)]).s
     needsTimer s = true ∧ s.alarm.time = 200001000 := by decide
 
+/-! ### examples: the hypotheses are satisfiable by non-trivial histories -/
+
+instance (s : State) (op : Op) : Decidable (Valid s op) := by
+  cases op <;> simp only [Valid] <;> infer_instance
+
+instance (s : State) (op : Op) : Decidable (ValidT s op) := by
+  cases op <;> simp only [ValidT] <;> infer_instance
+
+instance decValidRun : (s : State) → (ops : List (Op × StepEnv)) → Decidable (ValidRun s ops)
+  | _, [] => isTrue trivial
+  | s, (op, e) :: rest =>
+    have := decValidRun (s.step op e).1 rest
+    inferInstanceAs (Decidable (Valid s op ∧ ((s.step op e).2.res = .ok → ValidRun (s.step op e).1 rest)))
+
+instance decValidRunT : (s : State) → (ops : List (Op × StepEnv)) → Decidable (ValidRunT s ops)
+  | _, [] => isTrue trivial
+  | s, (op, e) :: rest =>
+    have := decValidRunT (s.step op e).1 rest
+    inferInstanceAs (Decidable (ValidT s op ∧ ((s.step op e).2.res = .ok → ValidRunT (s.step op e).1 rest)))
+
+/-- a non-trivial history for the examples: a client sends two Initial packets, the second one is
+    acknowledged, a PTO fires, the first packet is queued as a probe (declared lost), the Initial space is
+    dropped with one packet still tracked -/
+def exOps : List (Op × StepEnv) :=
+  [(.send .initial 1000 (-1) 1200 false false [⟨1, true⟩] [⟨2, true⟩], wEnv),
+   (.send .initial 2000 (-1) 300 false false [⟨3, true⟩] [], wEnv),
+   (.send .handshake 2500 (-1) 50 false false [] [], wEnv),
+   (.ack .initial 3000 [(1, 1)], wEnv),
+   (.timeout 400000000, wEnv),
+   (.probe .initial, wEnv),
+   (.send .initial 400001000 (-1) 1200 false false [⟨4, true⟩] [], wEnv),
+   (.drop .initial 400002000, wEnv)]
+
+set_option maxRecDepth 100000 in
+/-- the hypotheses of `ledger`, `in_flight_balanced` and `timer_armed` hold for `exOps`, and the outcome is not
+    trivial: frame 3 acked, frames 1 and 2 lost, frame 4 discarded with the Initial space -/
+example : let r := (State.new 0 false true 300).run exOps
+    r.res = .ok ∧ ValidRun (State.new 0 false true 300) exOps ∧ ValidRunT (State.new 0 false true 300) exOps ∧
+    r.handed = [⟨1, true⟩, ⟨2, true⟩, ⟨3, true⟩, ⟨4, true⟩] ∧
+    r.evs = [.acked ⟨3, true⟩, .lost ⟨1, true⟩, .lost ⟨2, true⟩] ∧ r.disc = [⟨4, true⟩] ∧
+    r.s.bytesInFlight = 0 := by decide
+
+
 end Uquic.Props.C06
